@@ -5,7 +5,7 @@ SPEC = dict(
     sources=["SimbodyModel/Proto.lean", "SimbodyModel/C33.lean", "SimbodyModel/C33_PE.lean", "SimbodyModel/C33_WQ.lean",
              "SimbodyProofs/C33_lemmas.lean", "SimbodyProofs/C33_PE_lemmas.lean", "SimbodyProofs/C33_WQ_lemmas.lean", "SimbodyProofs/C33_WQ_live.lean",
              "SimbodyProofs/C33.lean", "Drivers/C33.lean"],
-    n=dict(quick=300, thorough=6000),
+    n=dict(quick=300, thorough=3000),
     rtol=0.0, atol=0.0,
     modes=["", "onecpu"],
     rule="real ParallelExecutor / Parallel2DExecutor / ParallelWorkQueue runs with instrumented user tasks: thread counts "
